@@ -8,7 +8,10 @@ package format_test
 //	TestVerifC20Regress*   plain regressions for every shrunk defect found by this check
 //	TestVerifC20Valid      grammar-generated valid programs -> parse/format/parse/format oracle
 //	TestVerifC20Invalid    mutated (mostly invalid) variants -> no panic, no hang; if the parser
-//	                       accepts a mutant, the valid-program oracle applies to it as well
+//	                       accepts a mutant, the valid-program oracle applies to it as well; one
+//	                       mutant in five is invalid by the lexical rules alone (cut inside a
+//	                       string / raw string / block comment, illegal character in front of a
+//	                       token) and has to be rejected with an error
 //	FuzzVerifC20Source     native fuzz target over raw bytes (thorough tier; quick replays seeds)
 
 import (
@@ -18,8 +21,8 @@ import (
 	"testing"
 	"unicode/utf8"
 
-	rapid "github.com/zeromicro/go-zero/internal/verifrapid"
 	"github.com/zeromicro/go-zero/internal/verifkit"
+	rapid "github.com/zeromicro/go-zero/internal/verifrapid"
 	"github.com/zeromicro/go-zero/tools/goctl/pkg/parser/api/token"
 )
 
@@ -32,18 +35,25 @@ var knownSignatures = map[string]func(src string) bool{
 	"C20-F2": sigTabInToken,
 }
 
-// sigTabInToken (C20-F2): a character the tabwriter interprets (tab, vertical tab, form feed)
-// inside a comment or a string literal.
+// sigTabInToken (C20-F2): ast.Writer.write() rewrites the joined text of every nesting level
+// (" \n" -> "\n", "\n " -> "\n") and sends it through text/tabwriter, token interiors included:
+//
+//   - a character the tabwriter interprets (tab, vertical tab, form feed) inside a comment or a
+//     string literal is replaced by padding / a line break;
+//   - a blank next to a line break inside a string literal is removed (the value changes);
+//   - inside a block comment one blank per side is removed per nesting level and again by every
+//     later run: a single blank is gone after the first run (whitespace inside a comment may
+//     differ), a run of two or more blanks makes the result depend on the nesting depth, so
+//     format(format(x)) != format(x).
 func sigTabInToken(src string) bool {
 	for _, tok := range scanTokens(src) {
 		switch tok.Type {
-		case token.COMMENT, token.DOCUMENT, token.STRING, token.RAW_STRING:
-			if strings.ContainsAny(tok.Text, "\t\v\f") {
+		case token.STRING, token.RAW_STRING:
+			if strings.ContainsAny(tok.Text, "\t\v\f") || strings.Contains(tok.Text, " \n") || strings.Contains(tok.Text, "\n ") {
 				return true
 			}
-			// write() also strips one blank next to every line break of the joined text, token
-			// interiors included (once per nesting level and again on every later format run)
-			if strings.Contains(tok.Text, " \n") || strings.Contains(tok.Text, "\n ") || strings.Contains(tok.Text, " \r") {
+		case token.COMMENT, token.DOCUMENT:
+			if strings.ContainsAny(tok.Text, "\t\v\f") || strings.Contains(tok.Text, "  \n") || strings.Contains(tok.Text, "\n  ") {
 				return true
 			}
 		}
@@ -117,11 +127,53 @@ type regressCase struct {
 	valid bool // the source is expected to parse: the full oracle applies
 }
 
-// Shrunk inputs of the defects this check found on the pinned tree (see FINDINGS.md).
+// Shrunk inputs of the defects this check found on the pinned tree (see FINDINGS.md).  The ids are
+// those of FINDINGS.md; cases whose source matches the signature of a finding listed as known are
+// run once and reported as KNOWN-FINDING instead of failing.
 var regressCases = []regressCase{
 	{"D8-empty-path", "service a { @handler h \n get (Req) }", false},
 	{"D8-empty-path-returns", "service a{@handler h get returns(R)}", false},
 	{"D8-empty-path-brace", "service a{@handler h get}", false},
+	{"F1-percent-in-text", "type A {\n\tB int `json:\"b,options=50%d|100%s\"` // 100%\n}\n", true},
+	{"F1b-empty-doc-blank-line", "service a{@doc()@handler h get /a}", true},
+	// C20-F2 (known): blank next to a line break / tabwriter characters inside a token
+	{"F2-raw-string-blank-at-line-break", "info(\n\tdesc: `a \n  b`\n)", true},
+	{"F2-tab-in-string", "info(desc: \"a\tb\")", true},
+	{"F2-two-blanks-in-block-comment", "/*a\n   b*/\ntype A int", true},
+	// C20-F3 .. F11: repaired by checks/C20/fixes/NN-*.diff
+	{"F3-dropped-stmt-behind-import", "import\"v\"type()", true},
+	{"F3-empty-import-between-imports", "import \"a\"\nimport \"\"\nimport \"b\"\n", true},
+	{"F4-line-comment-trailing-blanks", "import(\"v\"//c1  \n)", true},
+	{"F4-line-comment-crlf", "type A int // c1\r\ntype B int //c2 \r\n", true},
+	{"F5-empty-service-line-comment", "service foo{//c1\n}", true},
+	{"F5-empty-service-own-line-comment", "service foo{\n/*c1*/\n}", true},
+	{"F6-map-key-pointer-comment", "type A map[*any//c\n]any", true},
+	{"F6-map-key-slice-comment", "type A map[[]any/*c*/]any", true},
+	{"F6-map-key-nested-comment", "type A map[[2][]*any//c\n]any", true},
+	{"F7-comment-behind-path", "service foo{@handler foo get /0//c\nreturns (A)}", true},
+	{"F7-comment-behind-path-request", "service foo{@handler foo get /0//c\n(A)}", true},
+	{"F7-comment-before-body-type", "service foo{@handler foo get /0 returns(\n//c\n[]A)}", true},
+	{"F7-comment-before-body-star", "service foo{@handler foo get /0 (\n/*c*/*A)}", true},
+	{"F8-empty-body-on-next-line", "service foo{@handler foo get /0/*c1*/\n()}", true},
+	{"F8-empty-body-behind-line-comment", "service foo{@handler foo get /0//c1\n()\nreturns (A)}", true},
+	{"F9-request-rparen-comment-empty-returns", "service foo{@handler foo get /0(A\n//c\n)returns()}", true},
+	{"F10-handler-without-name", "service a{@handler}", false},
+	{"F10-handler-without-name-after-doc", "service a{@doc \"x\" @handler}", false},
+	{"F10-handler-without-name-second-item", "service a{@handler h get /a @handler}", false},
+	{"F11-split-path-item", "service foo{@handler foo get/0 name returns(A)}", false},
+	{"F11-split-path-item-ident", "service foo{@handler foo get /a b}", false},
+}
+
+// Sources that are invalid by the lexical rules alone (a string, raw string or block comment that is
+// not terminated; a character that starts no token): scanner/parser must report an error.
+var rejectCases = []regressCase{
+	{"reject-unterminated-string", "import \"abc", false},
+	{"reject-unterminated-raw-string", "type A {\n\tB int `json:\"b\"\n}", false},
+	{"reject-unterminated-block-comment", "type A int /* open", false},
+	{"reject-unterminated-block-comment-star", "type A int /* open *", false},
+	{"reject-illegal-character", "type A # int", false},
+	{"reject-illegal-character-in-service", "service a{@handler h get /a ? }", false},
+	{"reject-lone-at", "type A int @", false},
 }
 
 func TestVerifC20Regress(t *testing.T) {
@@ -135,7 +187,7 @@ func TestVerifC20Regress(t *testing.T) {
 			if id := excludedKnown(known, rc.src); id != "" {
 				// listed as known: run it once, report, do not fail
 				if v := checkAny(rc.src, nil); !v.ok {
-					st.KnownFinding(id, fmt.Sprintf("property=C20 %s still fails: %s", rc.name, oneLine(v.detail)))
+					st.KnownFinding(id, fmt.Sprintf("%s still fails: %s (clause %q)", rc.name, oneLine(v.detail), v.clause))
 				}
 				return
 			}
@@ -151,7 +203,23 @@ func TestVerifC20Regress(t *testing.T) {
 			st.NonTrivial(rc.src)
 		})
 	}
+	for _, rc := range rejectCases {
+		rc := rc
+		t.Run(rc.name, func(t *testing.T) {
+			st.Eval()
+			v := checkAny(rc.src, nil)
+			if !v.ok {
+				t.Fatalf("C20 regression %s: clause %q violated: %s\nsource:\n%s", rc.name, v.clause, v.detail, visible(rc.src))
+			}
+			if v.clause != "rejected" {
+				t.Fatalf("C20 regression %s: clause %q violated: the parser accepted a source that is lexically invalid\nsource:\n%s", rc.name, clauseErrors, visible(rc.src))
+			}
+			st.NonTrivial(rc.src)
+		})
+	}
 }
+
+const clauseErrors = "scanner and parser report errors for invalid sources"
 
 func oneLine(s string) string {
 	if i := strings.IndexByte(s, '\n'); i >= 0 {
@@ -197,7 +265,7 @@ func checkAny(src string, mustComments []string) verdict {
 		}
 		return verdict{ok: true, slow: slow || f.slow, clause: "rejected"}
 	}
-	v, _ := checkValid(src, p.out, mustComments)
+	v, _ := checkValid(src, p.out, mustComments, false)
 	v.slow = v.slow || slow
 	return v
 }
@@ -294,7 +362,7 @@ func TestVerifC20Valid(t *testing.T) {
 				must = append(must, c.text)
 			}
 		}
-		v, formatted := checkValid(src, p.out, must)
+		v, formatted := checkValid(src, p.out, must, !g.lossy)
 		if v.slow {
 			st.Note("slow input (> %v, inconclusive): %q", softWatchdog, src)
 		}
@@ -307,12 +375,18 @@ func TestVerifC20Valid(t *testing.T) {
 		st.ClassN("comments", nc)
 		st.ClassN("comments-must-survive", len(must))
 		for a, n := range g.mayAreas {
+			if a == "" {
+				a = "other"
+			}
 			st.ClassN("interior-comments-"+a, n)
 		}
 		st.ClassN("struct-fields", g.fields)
 		st.ClassN("routes", g.routes)
 		st.ClassN("multi-line-block-comments", g.multiDoc)
 		st.ClassN("constructs-dropped-on-purpose", g.degenerate)
+		if !g.lossy {
+			st.Class("token-sequence-compared-exactly")
+		}
 		if formatted == src {
 			st.Class("already-formatted")
 		}
@@ -355,8 +429,62 @@ func join(ps []piece) string {
 	return sb.String()
 }
 
-// mutate applies 1-3 random mutations to a generated program; ops describes them.
-func mutate(t *rapid.T, ps []piece) (string, []string) {
+var illegalRunes = []string{"#", "$", "?", "!", "%", "\\", "&", "~", "^", "|", "<", ">", "+", "'", "é", "中", "\x7f", "\x01"}
+
+// mustRejectMutant derives from a valid program a source that is invalid by the lexical rules alone,
+// independent of the code under test: either the text is cut inside a string, raw string or block
+// comment (the generator knows where its tokens start and that they do not contain their own
+// terminator), or a character that starts no token is placed in front of a token.
+func mustRejectMutant(t *rapid.T, ps []piece) (string, string, bool) {
+	var open []int // pieces that are a string, raw string or block comment
+	var toks []int
+	for i, p := range ps {
+		switch {
+		case p.isTok && len(p.text) >= 2 && (p.text[0] == '"' || p.text[0] == '`'):
+			open = append(open, i)
+			toks = append(toks, i)
+		case !p.isTok && strings.HasPrefix(p.text, "/*") && len(p.text) >= 4:
+			open = append(open, i)
+		case p.isTok:
+			toks = append(toks, i)
+		}
+	}
+	prefix := func(i int) string { return join(ps[:i]) }
+	if len(open) > 0 && rapid.IntRange(0, 1).Draw(t, "mrkind") == 0 {
+		i := open[rapid.IntRange(0, len(open)-1).Draw(t, "mropen")]
+		txt := ps[i].text
+		lo, hi := 1, len(txt)-1 // keep the opening quote, lose the closing one
+		if txt[0] == '/' {
+			lo, hi = 2, len(txt)-2 // keep "/*", lose "*/"
+		}
+		k := rapid.IntRange(lo, hi).Draw(t, "mrcut")
+		for k < hi && !utf8.RuneStart(txt[k]) {
+			k++
+		}
+		return prefix(i) + txt[:k], fmt.Sprintf("cut the source inside the token %q (after %d bytes of it)", txt, k), true
+	}
+	if len(toks) == 0 {
+		return "", "", false
+	}
+	i := toks[rapid.IntRange(0, len(toks)-1).Draw(t, "mrtok")]
+	r := rapid.SampledFrom(illegalRunes).Draw(t, "mrrune")
+	sep := rapid.SampledFrom([]string{"", " ", "\n"}).Draw(t, "mrsep")
+	return prefix(i) + r + sep + join(ps[i:]), fmt.Sprintf("place the illegal character %q in front of token %q", r, ps[i].text), true
+}
+
+// mutate applies 1-3 random mutations to a generated program; ops describes them.  mustReject: the
+// mutant is invalid by the lexical rules alone, scanner/parser have to report an error.
+func mutate(t *rapid.T, ps []piece) (src string, ops []string, mustReject bool) {
+	if rapid.IntRange(0, 9).Draw(t, "mustreject") >= 8 {
+		if src, op, ok := mustRejectMutant(t, ps); ok {
+			return src, []string{op}, true
+		}
+	}
+	src, ops = mutateFree(t, ps)
+	return src, ops, false
+}
+
+func mutateFree(t *rapid.T, ps []piece) (string, []string) {
 	ps = append([]piece(nil), ps...)
 	var ops []string
 	nops := rapid.IntRange(1, 3).Draw(t, "nops")
@@ -460,8 +588,8 @@ func TestVerifC20Invalid(t *testing.T) {
 		g := newGen(t, true, known)
 		g.program(3)
 		orig := g.source()
-		src, ops := mutate(t, g.pieces)
-		if id := excludedKnown(known, src); id != "" {
+		src, ops, mustReject := mutate(t, g.pieces)
+		if id := excludedKnown(known, src); id != "" && !mustReject {
 			st.Excluded()
 			return
 		}
@@ -472,6 +600,14 @@ func TestVerifC20Invalid(t *testing.T) {
 		}
 		if !v.ok {
 			t.Fatalf("C20 clause %q violated: %s\nmutations: %s\nsource:\n%s\nunmutated program:\n%s", v.clause, v.detail, strings.Join(ops, "; "), visible(src), visible(orig))
+		}
+		if mustReject {
+			if v.clause != "rejected" {
+				t.Fatalf("C20 clause %q violated: the parser accepted a source that is lexically invalid\nmutations: %s\nsource:\n%s\nunmutated program:\n%s", clauseErrors, strings.Join(ops, "; "), visible(src), visible(orig))
+			}
+			st.Class("mutant-lexically-invalid-rejected")
+			st.NonTrivial(src)
+			return
 		}
 		if src == orig {
 			st.Class("mutation-was-a-no-op")
